@@ -28,6 +28,8 @@ CONSTANTS Level,                 \* 0 = focus set of the what-ifs, 1 = quick enu
           GuardRangeSafe,        \* a-c => abc only if no produced character is special inside a class ([,--a] => [,-a] is another class)
           GuardCombineCap,       \* x x => x{2} and x x* => x+ are not applied to groups that contain capture groups
           GuardBraceComma,       \* `{`, `}` and `,` are never unwrapped / unescaped: a{2\,2} => a{2,2} would complete a repeat (NOT in the code)
+          GuardLazyRep,          \* x{1}? and x{0}? are left alone (without the repeat the ? becomes a quantifier of its own)
+          GuardRangeBeforeDash,  \* [a-c-z]: a range followed by - is not expanded (abc-z would contain the range c-z)
           GuardPrefixOrder       \* ab|aba => aba? only if the longer literal comes first (leftmost-first choice)
 
 Sym == {"SOH", " ", ",", "-", ".", "0", "2", "9", ":", "]", "^", "a", "b", "c", "z", "{", "}"}
@@ -179,7 +181,8 @@ WalkAlt(xs) ==
           THEN R(MkCat(<<Quest(Ch(y[1]))>> \o Chars(x)), 1, {"FactorSuffix"})
           ELSE LET ws == WalkSeq(xs) IN R(Alt([i \in DOMAIN ws |-> ws[i].e]), Sum(ws), Acts(ws))
 WalkItems(items) ==
-  LET ws == WalkSeq(items)
+  LET ws == [k \in DOMAIN items |->
+               IF GuardRangeBeforeDash /\ items[k].op = "rng" /\ k < Len(items) /\ items[k+1] = Ch("-") THEN R(items[k], 0, {}) ELSE Walk(items[k])]
       units == LET RECURSIVE F(_) F(k) == IF k > Len(ws) THEN <<>> ELSE
                     (IF ws[k].e.op = "cat" THEN ws[k].e.xs ELSE
                      IF ws[k].e.op = "rng" THEN <<Ch(ws[k].e.l), Ch("-"), Ch(ws[k].e.h)>> ELSE <<ws[k].e>>) \o F(k+1) IN F(1)
@@ -224,7 +227,12 @@ Walk(e) ==
     [] e.op = "star"  -> LET w == Walk(e.x) IN R(Star(w.e), w.n, w.a)
     [] e.op = "plus"  -> LET w == Walk(e.x) IN R(Plus(w.e), w.n, w.a)
     [] e.op = "quest" -> LET w == Walk(e.x) IN R(Quest(w.e), w.n, w.a)
-    [] e.op = "lazy"  -> LET w == Walk(e.x) IN R(Lazy(w.e), w.n, w.a)
+    [] e.op = "lazy"  -> IF GuardLazyRep /\ e.x.op = "rep" /\ e.x.r \in {"0", "1"} THEN R(e, 0, {})
+                         ELSE LET w == Walk(e.x) IN
+                              \* the printed form is the operand followed by `?`: read back as a lazy quantifier only if the operand still is one
+                              IF w.e.op \in {"star", "plus", "quest", "rep"} THEN R(Lazy(w.e), w.n, w.a)
+                              ELSE IF w.e = Empty THEN R(Ch("?"), w.n, w.a)                 \* a dangling ? (does not compile)
+                              ELSE R(Quest(w.e), w.n, w.a)
     [] OTHER -> R(e, 0, {})
 \* how a printed concatenation is read back: `{2}` after something repeatable is a repeat; \01 followed by 2 is the escape \012
 RECURSIVE Reread(_)
@@ -235,6 +243,9 @@ RereadCat(xs) ==
                         THEN G(k+3, SubSeq(acc, 1, Len(acc) - 1) \o <<Rep(acc[Len(acc)], "2")>>)
                    ELSE IF acc # <<>> /\ k + 4 <= Len(xs) /\ xs[k] = Ch("{") /\ xs[k+1] = Ch("2") /\ xs[k+2] = Ch(",") /\ xs[k+3] = Ch("2") /\ xs[k+4] = Ch("}")
                         THEN G(k+5, SubSeq(acc, 1, Len(acc) - 1) \o <<Rep(acc[Len(acc)], "2,2")>>)
+                   ELSE IF acc # <<>> /\ xs[k] = Ch("?")                                   \* a ? left over by a dropped operand quantifies its left neighbour
+                        THEN G(k+1, SubSeq(acc, 1, Len(acc) - 1) \o <<IF acc[Len(acc)].op \in {"star", "plus", "quest", "rep"}
+                                                                     THEN Lazy(acc[Len(acc)]) ELSE Quest(acc[Len(acc)])>>)
                    ELSE IF k + 1 <= Len(xs) /\ xs[k] = Oct /\ xs[k+1] = Ch("2")
                         THEN G(k+2, Append(acc, EscM("n")))                  \* a newline: matches nothing of the alphabet
                         ELSE G(k+1, Append(acc, Reread(xs[k])))
@@ -296,7 +307,8 @@ Bounds(r) == CASE r = "0" -> <<0, 0>> [] r = "1" -> <<1, 1>> [] r = "2" -> <<2, 
                [] r = "5" -> <<5, 5>> [] r = "6" -> <<6, 6>> [] r = "0,1" -> <<0, 1>> [] r = "1," -> <<1, -1>> [] r = "0," -> <<0, -1>>
                [] r = "1,2" -> <<1, 2>> [] r = "2,2" -> <<2, 2>> [] OTHER -> <<9, 9>>
 Quant(q, s, st, base, lazy) ==
-  CASE q.op = "star"  -> Times(q.x, s, st, base, 0, -1, lazy)
+  CASE q.op = "rep"   -> Times(q.x, s, st, base, Bounds(q.r)[1], Bounds(q.r)[2], lazy)
+    [] q.op = "star"  -> Times(q.x, s, st, base, 0, -1, lazy)
     [] q.op = "plus"  -> Times(q.x, s, st, base, 1, -1, lazy)
     [] q.op = "quest" -> Times(q.x, s, st, base, 0, 1, lazy)
 M(e, s, st, base) ==
@@ -354,13 +366,16 @@ ItemsB == ItemsA \cup { Ch("b"), Ch("2"), Rng("a", "z"), EscK("D"), EscK("S"), E
                         Posix("d", TRUE), Posix("w", FALSE), EscC(":") }
 Items == IF Level # 2 THEN ItemsA ELSE ItemsB
 Second == { Ch("a"), Ch("-"), Ch("^"), EscC(","), Ch("2") }
-ClsSet == { Cls(<<i>>) : i \in Items } \cup { NCls(<<i>>) : i \in Items \cup {Ch("^")} }
+ClsSet == { Cls(<<r, Ch("-"), Ch("z")>>) : r \in { Rng("a", "c"), Rng("a", "b"), Rng("a", "a"), Rng("0", "9") } }
+          \cup { NCls(<<Rng("a", "c"), Ch("-"), Ch("z")>>) }
+          \cup { Cls(<<i>>) : i \in Items } \cup { NCls(<<i>>) : i \in Items \cup {Ch("^")} }
           \cup { Cls(<<i, j>>) : i \in Items \ {Ch("-")}, j \in Second } \cup { Cls(<<Ch("-"), j>>) : j \in Second \ {Ch("-")} }
           \cup { NCls(<<i, j>>) : i \in {Ch("a"), Rng("a", "b"), EscC(","), Ch("]")}, j \in {Ch("a"), Ch("-")} }
 T0 == Atoms0 \cup ClsSet
 Reps == {"0", "1", "2", "0,1", "1,", "0,", "1,2"}
 Post(S) == { Star(x) : x \in S } \cup { Plus(x) : x \in S } \cup { Quest(x) : x \in S } \cup { Rep(x, r) : x \in S, r \in Reps }
 LazyOf(S) == { Lazy(Star(x)) : x \in S } \cup { Lazy(Plus(x)) : x \in S } \cup { Lazy(Quest(x)) : x \in S }
+             \cup { Lazy(Rep(x, r)) : x \in S, r \in Reps }
 Wrapped == { Grp(x) : x \in T0 } \cup { Cap(x) : x \in Atoms0 } \cup { NCap(Ch("a")), Grp(Cat(<<Ch("a"), Ch("-")>>)), Grp(Alt(<<Ch("a"), Ch("-")>>))}
 CapGroups == { Grp(Alt(<<Cap(Ch("a")), Ch("-")>>)), Grp(Cat(<<Cap(Ch("a")), Ch("-")>>)) }
 FlagGroups == { FlagGrp(Ch("a")), FlagGrp(Cls(<<Rng("0", "9")>>)), FlagGrp(Cat(<<Ch("a"), Cls(<<Ch("-")>>)>>)), FlagGrp(Rep(Ch("a"), "1,")) }
@@ -468,7 +483,7 @@ Gen(d, r) ==
             [] k \in 12..13 -> The({ AltOf(x, y) : x \in {Gen(d-1, a)}, y \in {Gen(d-1, b)} })
             [] OTHER -> FlagGrp(Gen(d-1, a))
 SimTerms == { Gen(3, L(L(SimOff + i))) : i \in 1..SimN }
-Focus == T1 \cup FlagGroups \cup BraceTerms \cup { Cat(<<g, g>>) : g \in CapGroups } \cup { Cat(<<Ch("a"), x, Ch("2"), Ch("}")>>) : x \in ClsSet } \cup Post(Wrapped)
+Focus == T1 \cup { Cat(<<Ch("a"), Lazy(Rep(Ch("-"), "1"))>>) } \cup FlagGroups \cup BraceTerms \cup { Cat(<<g, g>>) : g \in CapGroups } \cup { Cat(<<Ch("a"), x, Ch("2"), Ch("}")>>) : x \in ClsSet } \cup Post(Wrapped)
          \cup { Alt(<<Cat(<<Ch("a"), Ch("b")>>), Cat(<<Ch("a"), Ch("b"), c>>)>>) : c \in ChS }
          \cup { Alt(<<x, y, z>>) : x, y, z \in ChS } \cup { Cat(<<Rep(Cap(Ch("a")), "0"), Ch("-")>>), Cat(<<Rep(Oct, "1"), Ch("2")>>) }
 Terms == { t \in (IF Level = 0 THEN Focus ELSE IF Level = 3 THEN SimTerms ELSE T2) : Canon(t) /\ Reread(t) = t /\ Len(Show(t)) <= 60 }
